@@ -619,6 +619,103 @@ fn batch_shape(w: &Workload, deltas: &[(Arc<ReplicationDelta>, Vec<u8>, u64)], r
     (largest, straddle)
 }
 
+/// Life cycle behind the fault-free run: crash at its end -> restart on the durable image ->
+/// truncate(T) through the actor -> barrier write -> shutdown -> second restart -> one more
+/// write -> recover. Every write that was durable before and is stamped > T, the barrier and
+/// the last write must be recovered; no existing file may be created again.
+fn life_cycle(w: &Workload, free: &RunResult) -> Result<u64, String> {
+    let synced = synced_lens_after(&free.log);
+    let last = synced.last().cloned().unwrap_or_default();
+    let image: BTreeMap<String, Vec<u8>> = last
+        .iter()
+        .map(|(n, &len)| (n.clone(), free.files.get(n).map(|b| b[..len.min(b.len())].to_vec()).unwrap_or_default()))
+        .collect();
+    let baseline = WalRotator::new(TraceWalStore::from_files(image.clone()), 1 << 20)
+        .and_then(|r| r.recover_all_entries())
+        .map_err(|e| format!("life cycle: recovery of the final durable image failed: {}", e))?;
+    let mut stamps: Vec<u64> = baseline.iter().map(|e| e.timestamp).collect();
+    stamps.sort();
+    stamps.dedup();
+    let mut ts: BTreeSet<u64> = [0u64].into_iter().collect();
+    if !stamps.is_empty() {
+        ts.insert(stamps[stamps.len() / 2]);
+        ts.insert(stamps[stamps.len() / 2].saturating_sub(1));
+        ts.insert(stamps[0]);
+    }
+    let mk = |key: &str, stamp: u64| {
+        let rid = ReplicaId::new(9);
+        let rv = ReplicatedValue::with_value(SDS::new(key.as_bytes().to_vec()), LamportClock { time: stamp, replica_id: rid });
+        let d = ReplicationDelta::new(key.to_string(), rv, rid);
+        let b = bincode::serialize(&d).expect("bincode of a delta");
+        (Arc::new(d), b)
+    };
+    let mut evals = 0;
+    for &t in &ts {
+        evals += 1;
+        let store = TraceWalStore::from_files(image.clone());
+        let cfg = WalConfig {
+            enabled: true,
+            wal_dir: PathBuf::from("/nonexistent-c09"),
+            fsync_policy: FsyncPolicy::Always,
+            max_file_size: (w.max_file_size as usize).max(17),
+            group_commit_max_entries: 1,
+            group_commit_max_wait: Duration::ZERO,
+            truncation_check_interval: Duration::from_secs(3600),
+        };
+        let (barrier, barrier_b) = mk("barrier", 0);
+        let (after, after_b) = mk("after-restart", 1);
+        let st = store.clone();
+        catch(move || {
+            vcore::block_on(async move {
+                let (h, task) = spawn_wal_actor(st.clone(), cfg.clone()).map_err(|e| format!("spawn_wal_actor on the recovered image: {}", e))?;
+                h.truncate(t);
+                h.write_durable(barrier, 0).await.map_err(|e| format!("barrier write failed: {}", e))?;
+                h.shutdown().await;
+                drop(h);
+                task.await.map_err(|e| format!("the WAL actor ended abnormally: {}", e))?;
+                let (h, task) = spawn_wal_actor(st.clone(), cfg).map_err(|e| format!("spawn_wal_actor (second restart): {}", e))?;
+                h.write_durable(after, 1).await.map_err(|e| format!("write after the second restart failed: {}", e))?;
+                h.shutdown().await;
+                drop(h);
+                task.await.map_err(|e| format!("the WAL actor ended abnormally: {}", e))?;
+                Ok::<(), String>(())
+            })
+        })
+        .map_err(|p| format!("life cycle (truncate({})) panicked: {}", t, p))
+        .and_then(|r| r)?;
+        let what = format!(
+            "life cycle after the fault-free run (max_file_size={}): restart on the durable image {:?}, truncate({}) through the actor, barrier write, restart, one more write",
+            w.max_file_size,
+            image.iter().map(|(n, b)| (n.clone(), b.len())).collect::<Vec<_>>(),
+            t
+        );
+        let got = WalRotator::new(TraceWalStore::from_files(store.final_files()), 1 << 20)
+            .and_then(|r| r.recover_all_entries())
+            .map_err(|e| format!("{}: recovery failed: {}", what, e))?;
+        for e in baseline.iter().filter(|e| e.timestamp > t) {
+            if !got.iter().any(|g| g.data == e.data && g.timestamp == e.timestamp) {
+                return Err(format!(
+                    "{}: a write that was durable before (stamp {} > {}) is no longer recovered; files now: {:?}; names created over an existing file: {:?}",
+                    what,
+                    e.timestamp,
+                    t,
+                    store.final_files().keys().collect::<Vec<_>>(),
+                    store.replaced()
+                ));
+            }
+        }
+        for (name, b) in [("the barrier write", &barrier_b), ("the write after the second restart", &after_b)] {
+            if !got.iter().any(|g| &g.data == b) {
+                return Err(format!("{}: {} was acknowledged but is not recovered", what, name));
+            }
+        }
+        if !store.replaced().is_empty() {
+            return Err(format!("{}: the actor created {:?} although that file existed", what, store.replaced()));
+        }
+    }
+    Ok(evals)
+}
+
 fn check_workload(w: &Workload, ctx: &mut CaseCtx<'_>) -> Result<(), String> {
     let thorough = ctx.tier() == vcore::Tier::Thorough;
     let deltas = make_deltas(w);
@@ -647,6 +744,11 @@ fn check_workload(w: &Workload, ctx: &mut CaseCtx<'_>) -> Result<(), String> {
     }
     if v.tolerated_rotate > 0 {
         ctx.label("fault_free_run_loses_acked_write(KF-C09-01)");
+    }
+
+    // ---- life cycle behind the fault-free run (crash, restart, truncate, restart, write)
+    if !is_large(w) && !is_wide(w) {
+        evals += life_cycle(w, &free)?;
     }
 
     // ---- the generated fault script (0..3 faults)
